@@ -152,6 +152,9 @@ site('expr.c', 'postfixexpr', 'error', "'%s' operator must be applied to pointer
      X('h_v->a', "'->'"), X('sv_->a', "'->'"),
      X('h_v.a', "'.'"), X('ip_->a', "'->'"), X('sp_.a', "'.'"), n=2)
 site('expr.c', 'postfixexpr', 'error', 'array is pointer to incomplete type', X('up_[0]'), X('vp_[1]', gcc=True), X('0[up_]'))
+site('expr.c', 'postfixexpr', 'error', 'called function has incomplete return type',
+     X('ginc_()', pre=P + '\nstruct u_ ginc_(void);', note='regression (fixed in /repo): the empty aggregate type emitted for the call was kept after the struct was completed'),
+     X('(*pinc_)(1)', pre=P + '\nunion w_ (*pinc_)(int);'))
 site('expr.c', 'postfixexpr', 'error', 'called object is not a function', X('h_v(1)'), X('ip_()'), X('sv_(1)'), X('g_(1, 2)(3)'))
 site('expr.c', 'postfixexpr', 'error', 'either array or index must be pointer type', X('h_v[1]'), X('1[2]'), X('sv_[0]'))
 site('expr.c', 'postfixexpr', 'error', "expected identifier after '%s' operator", X('sv_.(a)', "'.'"), X('sp_->5', "'->'"), X('sp_->', "'->'"))
